@@ -77,7 +77,9 @@ def run(pid, root, base_ctx):
         return res
     jobs = [(pid, root, m, base_keys) for m in muts]
     workers = min(16, len(jobs))
-    with ProcessPoolExecutor(max_workers=workers) as ex:
+    # fresh interpreters: forking the checker after its own analysis makes every child copy the parent's heap page by page
+    import multiprocessing
+    with ProcessPoolExecutor(max_workers=workers, mp_context=multiprocessing.get_context("spawn")) as ex:
         outs = list(ex.map(_run_one, jobs))
     for name, status, detail in outs:
         if status == "n/a":
